@@ -107,6 +107,14 @@ var populated = []event{
 var dirty = append(append([]event{}, populated...),
 	event{Body: []string{"d:00", "p:021", "rm:2", "mk:2", "p:220"}})
 
+// dirtyRemoved is the fourth initial state: the populated durable database plus one more commit,
+// NOT followed by a reopen, that deletes the nested bucket y (with its key), a key of x and a root
+// key and does not re-create them: under the caching configurations the write cache holds only
+// removals of durable entries, so every existence test (CreateBucket, Bucket, CreateBucketIfNotExists,
+// Put/Get) has to consult the cached removals.
+var dirtyRemoved = append(append([]event{}, populated...),
+	event{Body: []string{"rm:2", "d:11", "d:00"}})
+
 func runWorker(r *evid.Run, job string) {
 	rand.Seed(1) // treap priorities of the transaction/cache treaps: fixed per worker
 	f := strings.Split(job, ":")
@@ -122,6 +130,9 @@ func runWorker(r *evid.Run, job string) {
 	}
 	if len(f) > 4 && f[4] == "dirty-cache" {
 		e.init = dirty
+	}
+	if len(f) > 4 && f[4] == "dirty-removed" {
+		e.init = dirtyRemoved
 	}
 	if len(f) > 4 && f[4] == "populated-cursor" {
 		// cursor family on durable data: only cursor operations inside the transaction (one Seek
@@ -218,9 +229,9 @@ func main() {
 		depth   int
 		nshards int
 	}
-	starts := []start{{"empty", depth, 16}, {"populated", depthPop, 16}, {"dirty-cache", depthPop, 16}, {"populated-cursor", r.Pick(6, 8), 8}}
+	starts := []start{{"empty", depth, 16}, {"populated", depthPop, 16}, {"dirty-cache", depthPop, 16}, {"populated-cursor", r.Pick(6, 8), 8}, {"dirty-removed", depthPop, 16}}
 	if depthPop <= 3 {
-		starts[1].nshards, starts[2].nshards = 4, 4
+		starts[1].nshards, starts[2].nshards, starts[4].nshards = 4, 4, 4
 	}
 	// thorough: global time cap (the full depth-8 space needs ~45 min); workers that start after
 	// the deadline return at once, the run ends with exit 0 and exhaustive=false
@@ -333,7 +344,7 @@ func main() {
 		"cache_configurations":                           cn,
 		"exhaustive":                                     !capped,
 		"samples":                                        samples,
-		"rule": "operations {begin(rw|ro), put/delete on 3 buckets (root, x, x/y) x 3 keys x 2 values, createBucket/deleteBucket x,y, storeBlock (max 2), cursor(bucket), cursor First/Last/Next/Prev/Seek(k)/Delete, commit, rollback, update-returning-error, close+reopen}; all histories up to the depth bound (number of operations), explored per cache configuration from the empty database and (two operations less) from a populated durable one (all three buckets with keys, committed, closed and reopened) and from a dirty-cache one (the populated database plus one more commit that deletes a durable key, overwrites one and re-creates a nested bucket, not followed by a reopen); plus a cursor family on the populated durable database (only cursor operations inside the transaction, depth 6 quick / 8 thorough, every walk that deleted through the cursor committed and compared); " +
+		"rule": "operations {begin(rw|ro), put/delete on 3 buckets (root, x, x/y) x 3 keys x 2 values, createBucket/deleteBucket x,y, storeBlock (max 2), cursor(bucket), cursor First/Last/Next/Prev/Seek(k)/Delete, commit, rollback, update-returning-error, close+reopen}; all histories up to the depth bound (number of operations), explored per cache configuration from the empty database and (two operations less) from a populated durable one (all three buckets with keys, committed, closed and reopened) and from a dirty-cache one (the populated database plus one more commit that deletes a durable key, overwrites one and re-creates a nested bucket, not followed by a reopen) and from a dirty-removed one (the populated database plus one more commit, not followed by a reopen, that deletes a nested bucket, a key of a bucket and a root key without re-creating them); plus a cursor family on the populated durable database (only cursor operations inside the transaction, depth 6 quick / 8 thorough, every walk that deleted through the cursor committed and compared); " +
 			"transaction states merged on (visible content, pending status of every key and bucket, stored blocks, cursor bucket/position/validity and the cursor's operation history since its last First/Last/Seek); committed states merged on (content, blocks, bucket id counter, cached entries, just-reopened); every merged state is reached by replaying its shortest history on the real database; " +
 			"oracle after every operation: existence of every bucket, Get of every key, ForEach, ForEachBucket, full cursor forward = ForEach + ForEachBucket and backward = mirror image, Writable, blocks, documented error codes of non-mutating bad calls; after commit/rollback/failed Update/reopen the same in a fresh read-only transaction plus ErrTxClosed on every stale handle",
 	}
